@@ -576,7 +576,10 @@ class Rewriter:
         b = self.sub('R22:vec-backref', r'(?m)^\s*let (?:mut )?source_vec = self\.vec\.as_mut\(\);\s*$', '', b)
         b = self.sub('R22:vec-backref', r'(?m)^\s*let (?:mut )?vec = self\.vec\.as_mut\(\);\s*$', '', b)
         # bounds-checked / unchecked element addresses
-        b = self.sub('R22:index-mut', r'let (\w+): \*mut T = &mut self\[(\w+)\];', r'let \1 = self.index_mut_ptr(\2);', b)
+        b = self.sub('R22:index-mut', r'let (\w+): \*mut T = &mut self\[(\w+)\];', r'let \1 = self.index_mut_ptr(hs, \2);', b)
+        # R6': inside collection operations a panic is allowed only where std's documented behaviour panics (ghost Heap.allow_panic)
+        b = self.sub('R6:assert-std', r'\brt_assert\(', 'rt_assert_std(hs, ', b)
+        b = self.sub('R6:expect-std', r'\bopt_expect\(', 'opt_expect_std(hs, ', b)
         b = self.map_calls(b, r'\bself\.get_unchecked', lambda m_, a: 'self.get_unchecked_ptr(%s)' % a[0], 'R22:get_unchecked')
         # destructor of a whole slice
         def _ds(m_, a):
@@ -650,6 +653,43 @@ class Rewriter:
             b = self.map_calls(b, pat, lambda m_, a: None if (a and a[0] == 'hs') else '%s(%s)' % (m_.group(0).rstrip('(').rstrip(), ', '.join(['hs'] + a)), 'R12:thread-heap')
         b = self.map_calls(b, r'\bself\.truncate', lambda m_, a: None if (a and a[0] == 'hs') else 'self.truncate(hs, ds, %s)' % ', '.join(a), 'R12:thread-heap')
         b = self.sub('R22:slice-cloned-iter', r'\bother\.iter\(\)\.cloned\(\)', 'slice_cloned_iter(hs, other)', b)
+        return b
+
+
+    # R25: collections::String -- the text is the byte view of its Vec<u8>; std's str functions on the text become shims ----------
+    def strops_rules(self, b):
+        b = self.sub('R25:char-at', r'\bself\[(\w+)\.\.\]\.chars\(\)\.next\(\)', r'self.char_at(hs, \1)', b)
+        b = self.sub('R25:last-char', r'\bself\.chars\(\)\.rev\(\)\.next\(\)', 'self.last_char(hs)', b)
+        b = self.sub('R25:slice-chars', r'\bself\[(\w+)\.\.(\w+)\]\.chars\(\)', r'self.slice_chars(hs, \1, \2)', b)
+        b = self.sub('R25:is_char_boundary', r'\bself\.is_char_boundary\(', 'self.is_char_boundary(hs, ', b)
+        b = self.sub('R25:len_utf8', r'\b(\w+)\.len_utf8\(\)', r'char_len_utf8(\1)', b)
+        b = self.sub('R25:char-as-u8', r'\b(\w+) as u8\b', r'char_as_u8(\1)', b)
+        b = self.sub('R25:panic', r'\bpanic!\([^;]*?\)(?=\s*[,;}])', 'rt_panic_std(hs)', b)
+        # `let X = OPT?;` in a function returning Option is by definition `match OPT { Some(v) => v, None => return None }`
+        b = self.sub('R13:question-mark', r'let (\w+) = ([^;?]+)\?;', r'let \1 = match \2 { Some(v__) => v__, None => { return None; } };', b)
+        # the 4-byte scratch array of encode_utf8 becomes a scratch buffer of the ghost heap (argument hoisted: evaluation order kept)
+        b = self.sub('R25:encode-hoist', r'(self\.vec\.extend_from_slice)\(ch\.encode_utf8\(&mut \[0; 4\]\)\.as_bytes\(\)\)',
+                     r'{ let enc__ = encode_utf8_bytes(hs, ch); \1(enc__) }', b)
+        b = self.sub('R25:encode-scratch', r'(?m)^\s*let mut bits = \[0; 4\];\s*$', '', b)
+        b = self.sub('R25:encode', r'\bch\.encode_utf8\(&mut bits\)\.as_bytes\(\)', 'encode_utf8_bytes(hs, ch)', b)
+        # model types / constructors
+        b = self.sub('R25:model-type', r'(?<![\w:])String::with_capacity_in\(', 'StringM::with_capacity_in(hs, ', b)
+        b = self.sub('R25:model-type', r'(?<![\w:])String::from_utf8_unchecked\(', 'StringM::from_utf8_unchecked(Ghost(*hs), ', b)
+        b = self.sub('R25:model-type', r'(?<![\w:])String \{', 'StringM {', b)
+        b = self.sub('R25:model-type', r'(?<![\w:])Drain \{', 'StrDrain {', b)
+        # the Drain's back-pointer to its String becomes the explicit parameter `self_vec`
+        b = self.sub('R25:string-backref', r'(?m)^\s*let self_ptr = self as \*mut _;\s*$', '', b)
+        b = self.sub('R25:string-backref', r'(?m)^\s*string: self_ptr,\s*$', '', b)
+        b = self.sub('R25:string-backref', r'(?m)^\s*let self_vec = \(\*self\.string\)\.as_mut_vec\(\);\s*$', '', b)
+        # a temporary vec::Drain dropped at the end of its statement: its Drop made explicit
+        b = self.sub('R25:temp-drain-drop', r'\bself_vec\.drain\(([^;]*?)\.\.([^;]*)\);',
+                     r'{ let mut d__ = self_vec.drain(hs, RangeM { start: Included(\1), end: Excluded(\2) }); d__.drop(hs, ds, self_vec); }', b)
+        # R12: thread the ghost heap (and the destructor log) through the Vec<u8> calls
+        for pat in [r'\bself\.vec\.reserve', r'\bself\.vec\.push', r'\bself\.vec\.extend_from_slice_copy', r'\bself\.vec\.extend_from_slice(?!_)',
+                    r'\bself\.vec\.split_off', r'\bself\.insert_bytes']:
+            b = self.map_calls(b, pat, lambda m_, a: None if (a and a[0] == 'hs') else '%s(%s)' % (m_.group(0).rstrip('(').rstrip(), ', '.join(['hs'] + a)), 'R12:thread-heap')
+        for pat in [r'\bself\.vec\.truncate', r'\bself\.vec\.clear']:
+            b = self.map_calls(b, pat, lambda m_, a: None if (a and a[0] == 'hs') else '%s(%s)' % (m_.group(0).rstrip('(').rstrip(), ', '.join(['hs', 'ds'] + a)), 'R12:thread-heap')
         return b
 
     # R20: RawVec growth -- the arena seen through its Alloc interface as a ghost "buffer owned" state -----------------
@@ -798,9 +838,16 @@ class Rewriter:
             b = self.map_calls(b, r'(?<![\w.:])ptr::copy', lambda m_, a: 'slot_copy(vs, %s)' % ', '.join(a[:2]), 'R21:slot-copy')
             b = self.map_calls(b, r'(?<![\w.:])ptr::write', lambda m_, a: 'slot_copy(vs, %s)' % ', '.join(reversed(a[:2])), 'R21:slot-copy')
             b = self.sub('R21:needs_drop', r'\bmem::needs_drop::<\s*T\s*>\(\)', 'NEEDS_DROP()', b)
+        if kind == 'chunkiter':
+            # R24: the safe chunk iterator: the slice it builds is the (address, length) pair, checked to lie inside a held block
+            b = self.sub('R24:raw-next', r'\bself\.raw\.next\(\)', 'self.raw.next(w)', b)
+            b = self.sub('R24:maybe-uninit-cast', r'\s+as \*const mem::MaybeUninit<u8>', '', b)
+            b = self.map_calls(b, r'(?<![\w.:])slice::from_raw_parts', lambda m_, a: 'raw_slice(w, Ghost(blk__), %s)' % ', '.join(a), 'R24:from_raw_parts')
         if kind == 'rawvecgrow':
             b = self.rawvecgrow_rules(b)
-        if kind == 'vecops':
+        if kind == 'strops':
+            b = self.strops_rules(b)
+        if kind in ('vecops', 'strops'):
             # the element-move model has its own (complete) rule set: none of the arena rules below applies
             b = self.vecops_rules(b)
             b = self.sub('R10:unreachable', r'\bcore::hint::unreachable_unchecked\(\)', 'unreachable_unchecked::<()>()', b)
